@@ -1004,6 +1004,11 @@ impl FromStr for Duration {
             .parse()
             .map_err(|e| TemporalError::range().with_message(format!("{e}")))?;
 
+        // The duration designator must be followed by at least one element.
+        if parse_record.date.is_none() && parse_record.time.is_none() {
+            return Err(TemporalError::range().with_message("Duration string has no elements."));
+        }
+
         // A fraction has at most nine digits.
         let fraction = match parse_record.time {
             Some(TimeDurationRecord::Hours { fraction, .. })
